@@ -189,7 +189,7 @@ theorem fresh_game (c : Cfg) (s s' : St) (h : s.players = []) (h' : s'.players =
                (step c t .addPlayer).1.players = t.players ++ [newVars c t.players.length]) ∧
     (∀ i k v, (k, v) ∈ c.initVars → (k, v) ∈ newVars c i) ∧
     (∀ (d : Dev) i, get (newVars c i) d.key = none → loaded d (newVars c i) = d.fresh) := by
-  refine ⟨by cases ha : c.autoStart <;> simp [step, h, h', turnStart, ballStart, modeStart, setOn, varsOf, ha], fun t => ?_, fun i k v hm => by simp [newVars, hm],
+  refine ⟨by cases ha : c.autoStart <;> simp [step, h, h', turnStart, ballStart, ballStartEvs, modeStartEvs, modeStart, setOn, varsOf, ha], fun t => ?_, fun i k v hm => by simp [newVars, hm],
     fun d i hn => by unfold loaded; rw [hn]⟩
   simp only [step]
   split
@@ -238,12 +238,13 @@ theorem restore_on_mode_start (c : Cfg) (hk : KeysOK c) (s : St) (hne : s.player
 /-- **time**: while no game mode runs (between a ball's end and the next start of the mode, after a stop request, after
 the game) the passing of any amount of time changes nothing at all — no timer of a stopped mode ticks or resumes from a
 pause; while it runs, time changes the dictionary of the player who is up and nobody else's, and neither the pointer
-nor the turn. -/
+nor the turn, and every `player_<mode>_<timer>_tick` event a tick posts carries the number of the player who is up. -/
 theorem time_passing (c : Cfg) (s : St) (n : Nat) :
     (s.dev = none → step c s (.wait n) = (s, [])) ∧
     (Inv s → ∀ q, q ≠ s.cur → (step c s (.wait n)).1.players[q]? = s.players[q]?) ∧
-    (step c s (.wait n)).1.cur = s.cur ∧ (step c s (.wait n)).1.dev = s.dev ∧ (step c s (.wait n)).2 = [] := by
-  refine ⟨fun h => by simp [step, h], fun h q hq => ?_, ?_, ?_, ?_⟩
+    (step c s (.wait n)).1.cur = s.cur ∧ (step c s (.wait n)).1.dev = s.dev ∧
+    (Inv s → ∀ e ∈ (step c s (.wait n)).2, e.num = s.cur + 1) := by
+  refine ⟨fun h => by simp [step, h], fun h q hq => ?_, ?_, ?_, fun h => ?_⟩
   · simp only [step]
     split
     · rfl
@@ -251,7 +252,52 @@ theorem time_passing (c : Cfg) (s : St) (n : Nat) :
       have := dev_eq_cur h hp
       subst this
       exact modify_get_other _ _ _ _ hq
-  all_goals (simp only [step]; split <;> rfl)
+  · simp only [step]; split <;> rfl
+  · simp only [step]; split <;> rfl
+  · simp only [step]
+    split
+    · intro e he; simp at he
+    · rename_i p hp
+      have := dev_eq_cur h hp
+      subst this
+      exact elapseEvs_num _ _ _ _ _
+
+/-- **device-variable events belong to the player who is up**: every `player_<var>` event posted because a device wrote
+its state (a timer's tick variable: at load, on add / subtract / jump / reset, on every tick) or because a ball ended and
+the next one started (`ball`, `extra_balls`, the devices' loads) carries the number of the player who is up when the
+request has been handled — for time passing, control events and start requests that is the player who was up before. -/
+theorem device_events_owner (c : Cfg) (s : St) (h : Inv s) (op : Op)
+    (hop : (∃ n, op = .wait n) ∨ (∃ d code, op = .dev d code) ∨ op = .modeStart ∨ op = .drain ∨ op = .release) :
+    ∀ e ∈ (step c s op).2, e.num = (step c s op).1.cur + 1 := by
+  rcases hop with ⟨n, e⟩ | ⟨d, code, e⟩ | e | e | e <;> subst e
+  · rw [(time_passing c s n).2.2.1]; exact (time_passing c s n).2.2.2.2 h
+  · simp only [step]
+    split
+    · intro e he; simp at he
+    · rename_i p hp
+      have := dev_eq_cur h hp
+      subst this
+      split
+      · intro e he; simp at he
+      · split
+        · intro e he; simp at he
+        · exact devEv_num _ _ _ _
+  · simp only [step]
+    split
+    · intro e he; simp at he
+    · split
+      · intro e he; simp at he
+      · rw [modeStart_cur]; exact loadEvs_num _ _ _
+  · simp only [step]
+    split
+    · intro e he; simp at he
+    · exact drainStep_num c s
+  · simp only [step]
+    split
+    · split
+      · exact drainStep_num c _
+      · intro e he; simp at he
+    · intro e he; simp at he
 
 /-- **a stopped mode is inert**: after a stop request (not held), after the release of a held stop, after the game has
 ended, and after a ball has drained when the mode does not start with the ball, nothing points into any player any more, so (by `time_passing`) no amount of time
@@ -377,6 +423,18 @@ example :
     s1.hold = true ∧ s1.ending = true ∧ s1.cur = 0 ∧ s1.dev = some 0 ∧ view s2 shot = some (.int 2) ∧ s2.dev = some 0 ∧
     Inv s3 ∧ s3.cur = 1 ∧ s3.dev = some 1 ∧ s3.hold = false ∧ view s3 shot = some (.int 0) ∧
     get (varsOf s3 0) "shot_sh1" = some (.int 2) := by decide
+
+/-- device-variable events are really produced: a timer running from the start (a tick every 4 units) posts its load
+event (new variable, value 0) with the ball start and one `player_m1_tm_tick` event per tick, value / previous value /
+change / the number of the player who is up; after the turn change they carry player 2's number. -/
+example :
+    let tm : Dev := timerDev "m1_tm_tick" ⟨0, true, none, 4, 8⟩
+    let c : Cfg := { ballsPerGame := 3, devs := [tm] }
+    let s1 := run c {} [.startGame, .addPlayer]
+    (step c {} .startGame).2.getLast? = some ⟨"m1_tm_tick", .int 0, .int 0, .int 0, 1⟩ ∧
+    (step c s1 (.wait 9)).2 = [⟨"m1_tm_tick", .int 1, .int 0, .int 1, 1⟩, ⟨"m1_tm_tick", .int 2, .int 1, .int 1, 1⟩] ∧
+    (step c s1 (.dev 0 1)).2 = [⟨"m1_tm_tick", .int 7, .int 0, .int 7, 1⟩] ∧
+    (step c (run c s1 [.drain]) (.wait 4)).2 = [⟨"m1_tm_tick", .int 1, .int 0, .int 1, 2⟩] := by decide
 
 
 end MpfVerif.C11
